@@ -5,6 +5,7 @@ package c37
 
 import (
 	"context"
+	"sync/atomic"
 	"encoding/json"
 	"fmt"
 	"sync"
@@ -80,7 +81,9 @@ func (r *recReg) Get(ctx context.Context, p []sop.RegistryPayload[sop.UUID]) ([]
 	mon.mu.Lock()
 	mon.events++
 	mon.mu.Unlock()
-	return r.in.Get(ctx, p)
+	out, err := r.in.Get(ctx, p)
+	jitter() // widen the window between reading a handle and acting on it
+	return out, err
 }
 func (r *recReg) Add(ctx context.Context, p []sop.RegistryPayload[sop.Handle]) error {
 	mon.mu.Lock()
@@ -138,6 +141,16 @@ func (r *recReg) UpdateNoLocks(ctx context.Context, allOrNothing bool, p []sop.R
 	return err
 }
 
+var jitterN atomic.Int64
+
+// jitter sleeps 0-1.5 ms on every third call (interleaving widening only, never part of the oracle).
+func jitter() {
+	n := jitterN.Add(1)
+	if n%3 == 0 {
+		time.Sleep(time.Duration((n*7919)%1500) * time.Microsecond)
+	}
+}
+
 // ---- the workload ----
 
 type RoundRes struct {
@@ -164,13 +177,13 @@ func round(i int, seed int64, _ []string) any {
 	res.Slot = []int{2, 2, 4}[rnd.Intn(3)]
 	prof := []sopx.Profile{sopx.InNode, sopx.Separate}[rnd.Intn(2)]
 	res.Profile = string(prof)
-	nKeys := 3 + rnd.Intn(5)
+	nKeys := 2 + rnd.Intn(4)
 	if _, err := conc.SeedStore(db, "s", res.Slot, prof, nKeys); err != nil {
 		res.Harness = err.Error()
 		return res
 	}
 	mir := txn.Mirror{Dir: dir}
-	G := 2 + rnd.Intn(2)
+	G := 3 + rnd.Intn(3)
 	type outcome struct {
 		tid sop.UUID
 		err error
@@ -180,7 +193,7 @@ func round(i int, seed int64, _ []string) any {
 	scripts := make([][]func(*conc.Clock) conc.TxnRec, G)
 	n := 0
 	for g := 0; g < G; g++ {
-		for j := 0; j < 1+rnd.Intn(2); j++ {
+		for j := 0; j < 1+rnd.Intn(3); j++ {
 			id := fmt.Sprintf("T%d", n)
 			n++
 			var ops []txn.Op
@@ -308,7 +321,7 @@ func openReg(dir string) (fs.Registry, error) {
 }
 
 func Run(r *report.Run) int {
-	rounds := r.Pick(160, 4000)
+	rounds := r.Pick(240, 4000)
 	lines, died := par.Run(r, "c37-worker", 8, rounds, 1700, nil)
 	conc.ReportDeaths(r, "C37", died)
 	for _, l := range lines {
@@ -352,6 +365,6 @@ func Run(r *report.Run) int {
 	return r.Finish(rule, assumptions, 10)
 }
 
-const rule = "rounds of 2-3 goroutines x 1-2 writer transactions on the mirror path over 3-7 keys in 1-3 nodes (slot length 2/4), upserts and read-modify-writes with L2 delays and a GOMAXPROCS cycle; a recording Registry decorator logs every call; online monitor: (ii) at every flip (UpdateNoLocks allOrNothing=true) the blob of each new active id exists and decodes before the call is delegated; offline over the trace: (i) among transactions whose Commit returned nil at most one installs version v+1 of a node; (iii, live case) at quiescence each touched handle equals the image of the last committed flip; fingerprint = commit-order signature; non-trivial = commits overlapped and >=2 flips were observed"
+const rule = "rounds of 3-5 goroutines x 1-3 writer transactions on the mirror path over 2-5 keys in 1-3 nodes (slot length 2/4), upserts and read-modify-writes with L2 delays and a GOMAXPROCS cycle; a recording Registry decorator logs every call; online monitor: (ii) at every flip (UpdateNoLocks allOrNothing=true) the blob of each new active id exists and decodes before the call is delegated; offline over the trace: (i) among transactions whose Commit returned nil at most one installs version v+1 of a node; (iii, live case) at quiescence each touched handle equals the image of the last committed flip; fingerprint = commit-order signature; non-trivial = commits overlapped and >=2 flips were observed"
 
 var assumptions = []string{"mirror path wiring identical to infs", "crash + recovery half of the property is observed by C08's walker, not here", "the model-checking clause of the quantifier is out of this family's reach"}
